@@ -135,7 +135,9 @@ Fixpoint process (depth : nat) (root : anode) (fl : flags) (fi : first) {struct 
     match input with
     | None => finish (mk_axis axis t fl QContext pr_none)
     | Some inp =>
-      let normal : BR :=
+      (* a function, so that the extracted (strict) code does not build the regular
+         translation when the //name shortcut applies *)
+      let normal (_ : unit) : BR :=
         let smart := andb (negb (f_filter fl))
                           (orb (String.eqb axis "descendant") (String.eqb axis "descendant-or-self")) in
         let* (qi, pr, _) := process d inp (mkF smart false false) fi_nil in
@@ -152,8 +154,8 @@ Fixpoint process (depth : nat) (root : anode) (fl : flags) (fi : first) {struct 
             finish (Ok (QDescendant false t qg, set_nonflat pr))
           | None => finish (Ok (QDescendant false t QContext, set_nonflat pr_none))
           end
-        else normal
-      | _ => normal
+        else normal tt
+      | _ => normal tt
       end
     end
   | AFilter input cond =>
